@@ -14,13 +14,17 @@ func init() {
 		var worlds []*World
 		id := 0
 		far := 4000000000
-		abil := []string{"store/add", "store/*", "*", "stor/*", "store/ad*", "store/add/*"}
+		// the last four differ from a matching spelling only by letter case: abilities are compared exactly
+		abil := []string{"store/add", "store/*", "*", "stor/*", "store/ad*", "store/add/*", "Store/*", "store/Add", "STORE/ADD", "Store/Add"}
+		narrow := map[string]bool{"stor/*": true, "store/ad*": true, "Store/*": true, "store/Add": true, "STORE/ADD": true, "Store/Add": true}
 		type resCase struct {
 			claimed string
 			pats    []string
 		}
 		resources := []resCase{
 			{"did:mailto:web.mail:alice", []string{"did:mailto:web.mail:alice", "did:mailto:web.mail:*", "did:mailto:*", "did:*", "ucan:*", "did:mailto:web.mail:al*", "did:mailto:web.mail:bob*", "did:mailto:web.mail:alice*"}},
+			// DID URLs (a DID followed by a path): distinct resources of one DID stay distinct
+			{"did:web:example.com/users/alice", []string{"did:web:example.com/users/alice", "did:web:example.com/users/*", "did:web:example.com/*", "ucan:*", "did:web:example.com/users/bob", "did:web:example.com", "did:web:example.com/users/bob/*"}},
 			{"https://example.com/a/b", []string{"https://example.com/a/b", "https://example.com/a/*", "https://example.com/*", "ucan:*", "https://example.org/*"}},
 		}
 		add := func(w *World, label string) {
@@ -46,7 +50,7 @@ func init() {
 					return
 				}
 				for _, p := range abil {
-					if depth == 3 && (p == "stor/*" || p == "store/ad*") && level != 2 {
+					if depth == 3 && narrow[p] && level != 2 {
 						continue // keep the product small: the non-matching spellings at the middle level only
 					}
 					rec(level+1, append(append([]string{}, pats...), p))
